@@ -1,1 +1,148 @@
-fn main() {}
+//! C19 — Blob store returns the stored bytes and never collects live data.
+//!
+//! Parts:
+//!  * `seq`    0..25 (40) operations on one `BlobStore` over a fresh TensorStore — put, streamed
+//!             open/write/finish/abandon with several writers open at once, delete, gc, full_gc,
+//!             repair, verify, get, streamed read, exists, chunk damage — against an exact model of
+//!             artifacts, chunk records and reference counts. Chunk size 16..64; content built from
+//!             a pool of chunk-sized blocks (overlap across and within artifacts); sizes 0, 1, c-1,
+//!             c, c+1, k*c. Simulated clock: gc_min_age = 1 h, `Tick` moves every chunk 2 h back.
+//!  * `sleep`  the same interpreter with gc_min_age = 0 and the real clock: N stores are driven,
+//!             ONE sleep of 1.1 s, then gc + read-back + more operations on all of them.
+//!  * `sched`  2..4 scripted threads (writers/deleters of overlapping content, collectors) under
+//!             the deterministic scheduler with the `blob.chunk.rmw` / `blob.refs.rmw` yield points;
+//!             quiescence checks: read-back, reference counts vs live references, delete + gc,
+//!             full_gc leaves exactly the live chunks.
+//!  * `stress` (thorough) real threads writing/deleting the same blocks; failing unit = recorded outcome.
+
+mod common;
+mod sched;
+mod seq;
+
+use nv_engine::{main_for, CaseCtx, CustomPart, Fail, PropDef, PropPart, Violation};
+use proptest::prelude::*;
+use proptest::strategy::ValueTree;
+use proptest::test_runner::{Config, RngAlgorithm, TestRng, TestRunner};
+use seq::{ops_strategy, Op, Run};
+use serde::{Deserialize, Serialize};
+
+#[derive(Clone, Debug, Serialize, Deserialize)]
+struct SleepCase {
+    chunk: u8,
+    before: Vec<Op>,
+    after: Vec<Op>,
+}
+
+fn sleep_one(case: &SleepCase, findings: &nv_engine::Findings, strict: bool) -> Result<(), Fail> {
+    let mut ctx = CaseCtx::new(findings, strict);
+    let mut run = Run::new(case.chunk as usize, true)?;
+    for op in &case.before {
+        run.step(op, &mut ctx)?;
+    }
+    std::thread::sleep(std::time::Duration::from_millis(1100));
+    sleep_after(case, &mut run, &mut ctx)
+}
+
+fn sleep_after(case: &SleepCase, run: &mut Run, ctx: &mut CaseCtx) -> Result<(), Fail> {
+    run.mark_all_aged();
+    run.step(&Op::Gc, ctx)?;
+    for op in &case.after {
+        run.step(op, ctx)?;
+    }
+    run.step(&Op::Gc, ctx)?;
+    run.finish_case(ctx)
+}
+
+fn sleep_part() -> CustomPart {
+    CustomPart {
+        name: "sleep",
+        run: Box::new(|cfg, findings, stats| {
+            let n = cfg.cases(256, 3000) as usize;
+            let seed = nv_engine::mix(cfg.seed ^ nv_engine::fnv64(b"sleep"));
+            let mut sb = [0u8; 32];
+            sb[..8].copy_from_slice(&seed.to_le_bytes());
+            sb[8..16].copy_from_slice(&nv_engine::mix(seed).to_le_bytes());
+            let mut runner = TestRunner::new_with_rng(Config::default(), TestRng::from_seed(RngAlgorithm::ChaCha, &sb));
+            let strat = (16u8..=64, ops_strategy(15), ops_strategy(10)).prop_map(|(chunk, before, after)| SleepCase { chunk, before, after });
+            let cases: Vec<SleepCase> = (0..n).filter_map(|_| strat.new_tree(&mut runner).ok().map(|t| t.current())).collect();
+            let mut ctxs: Vec<CaseCtx> = cases.iter().map(|_| CaseCtx::new(findings, false)).collect();
+            let mut runs: Vec<Run> = Vec::new();
+            let mut failure: Option<(usize, Fail)> = None;
+            'a: for (i, case) in cases.iter().enumerate() {
+                let mut run = match Run::new(case.chunk as usize, true) {
+                    Ok(r) => r,
+                    Err(f) => {
+                        failure = Some((i, f));
+                        break 'a;
+                    },
+                };
+                for op in &case.before {
+                    if let Err(f) = run.step(op, &mut ctxs[i]) {
+                        failure = Some((i, f));
+                        break 'a;
+                    }
+                }
+                runs.push(run);
+            }
+            if failure.is_none() {
+                // the one wall-clock wait of this check: everything stored so far was created in an
+                // earlier second than any later gc observes
+                std::thread::sleep(std::time::Duration::from_millis(1100));
+                for (i, case) in cases.iter().enumerate() {
+                    if let Err(f) = sleep_after(case, &mut runs[i], &mut ctxs[i]) {
+                        failure = Some((i, f));
+                        break;
+                    }
+                }
+            }
+            for (i, run) in runs.iter().enumerate() {
+                stats.evaluations += 1;
+                for l in run.marks.borrow().iter() {
+                    stats.label(l);
+                }
+                for s in &run.known_sigs {
+                    stats.excluded(s);
+                }
+                if ctxs[i].nontrivial {
+                    let js = serde_json::to_string(&cases[i]).unwrap_or_default();
+                    if stats.nontrivial.insert(nv_engine::fnv64(js.as_bytes())) && stats.samples.is_empty() {
+                        stats.sample(serde_json::json!({ "case": cases[i] }));
+                    }
+                }
+            }
+            failure.map(|(i, f)| {
+                let case = serde_json::to_value(&cases[i]).unwrap_or_default();
+                let path = nv_engine::runner::write_replay(cfg, "sleep", &f, &case);
+                Violation { part: "sleep".into(), sig: f.sig, msg: f.msg, replay: path }
+            })
+        }),
+        replay: Box::new(|case, findings, strict| {
+            let c: SleepCase = serde_json::from_value(case.clone()).map_err(|e| Fail::new("replay-format", e.to_string()))?;
+            sleep_one(&c, findings, strict)
+        }),
+    }
+}
+
+fn main() {
+    main_for(PropDef {
+        id: "C19",
+        level: "exploration",
+        rule: "seq/sleep: non-trivial = the history deletes an artifact that shares >= 1 chunk with another live artifact and later runs a collection (gc or full_gc), or it stores an artifact containing the same chunk twice. sched: non-trivial = the schedule puts two threads inside the same read-modify-write window at the same time (exists-check..put/increment of store_chunk, or read..write-back of a reference count; scheduler-reported overlaps). stress: every round. distinct = distinct generated case (hash of its JSON)",
+        assumptions: vec![
+            "seq/sched use gc_min_age = 3600 s and simulate the passing of time by moving the _created field of every stored chunk 7200 s into the past (the field is read only by the incremental collector's age test); the sleep part uses gc_min_age = 0 and one real 1.1 s sleep, after which chunks created before the sleep must be collectible and younger unreferenced chunks may or may not be collected",
+            "gc_batch_size is set above the number of chunks, so one gc cycle examines every chunk (with a smaller batch the set examined depends on the store's scan order)",
+            "put of empty data is documented to be rejected; an empty artifact is created through the streaming writer only",
+            "sequential parts assert the reference count of every chunk exactly (occurrences in live artifacts + chunks held by open or abandoned writers); in the concurrent parts an over-count is only labelled (leak), an under-count is a failure because a later delete + gc frees a chunk that is still needed",
+            "a streaming writer left open across full_gc/repair is treated as a legal sequence (nothing in the API or the book forbids it; the book recommends periodic full_gc for concurrent workloads)",
+            "the scheduler owns the interleaving only at blob.chunk.rmw, blob.refs.rmw and operation boundaries; each scripted thread may delete only its own share of the artifacts (no two concurrent deletes of one artifact); the background GC task (start()) is never started",
+            "verify reports damage by returning Ok(false) or an error; only Ok(true) on a damaged artifact is a failure",
+        ],
+        parts: vec![
+            PropPart::new("seq", 60_000, 1_500_000, seq::seq_strategy, seq::seq_check).boxed(),
+            Box::new(sleep_part()),
+            PropPart::new("sched", 12_000, 150_000, sched::sched_strategy, sched::sched_check).shrink_iters(1200).boxed(),
+            Box::new(sched::stress_part()),
+        ],
+        children: vec![],
+    });
+}
